@@ -861,6 +861,7 @@ func c20(p *core.Program, r *core.Report) {
 	differencesOfInputsRule(p, r, "distance-from-input-differences", rdpDistanceFn(p))
 	clampedProjectionRule(p, r, "segment-distance-clamped", [][2]string{{"xy", rdpDistanceName(p)}})
 	rdpScanRule(p, r, "candidate-scan-exhaustive")
+	thresholdSquareRule(p, r, "threshold-square-finite")
 	rdpSingleDecisionRule(p, r, "single-decision-point")
 	r.Assume("the threshold bound on omitted points and idempotence depend on runtime numbers and are not decided beyond the clamp structure of the distance kernel")
 }
